@@ -12,6 +12,7 @@ from __future__ import annotations
 import gc
 import hashlib
 import sys
+import threading
 import weakref
 from typing import Any, Dict, List, Optional, Tuple
 
@@ -40,7 +41,7 @@ ASSUMPTIONS = [
     "feasible order; blocking receives carry generous virtual timeouts",
     "socket keys are not reused within a run (the hub keeps undelivered messages per key by design)",
 ]
-PROBES = ["two-in-flight", "send-races-disconnect", "nonblocking-recv-empty", "nonblocking-recv-got", "callback-delivery",
+PROBES = ["reconnect", "late-finaliser", "two-in-flight", "send-races-disconnect", "nonblocking-recv-empty", "nonblocking-recv-got", "callback-delivery",
           "structured", "silent", "broadcast", "three-endpoints", "two-socket-ids", "connection-error-after-disconnect",
           "recv-timeout", "lock-contended", "stalled-thread", "late-starter"]
 
@@ -59,7 +60,7 @@ def _load():
     return _mods
 
 
-def gen_scenario(ch: Choices, calm: bool) -> Dict[str, Any]:
+def gen_scenario(ch: Choices, calm: bool, no_cb_reconnect: bool = False) -> Dict[str, Any]:
     n_ep = 2 if calm else 2 + ch.draw(2, "nep")
     names = ["a", "b", "c"][:n_ep]
     broadcast = (n_ep == 3) and ch.flag(1, 3, "bcast")
@@ -97,6 +98,7 @@ def gen_scenario(ch: Choices, calm: bool) -> Dict[str, Any]:
     budget = {n: 4 for n in names}
     inflight: Dict[Tuple[str, str, int], int] = {}
     dropped: set = set()
+    reconnects: List[tuple] = []
     kind_of: Dict[Tuple[str, str, int], str] = {}
     for (x, y, sid) in chans:
         for d in ((x, y, sid), (y, x, sid)):
@@ -106,7 +108,7 @@ def gen_scenario(ch: Choices, calm: bool) -> Dict[str, Any]:
         x, y, sid = chans[ch.draw(len(chans), "ch")]
         if ch.flag(1, 2, "dir"):
             x, y = y, x
-        k = ch.weighted([5, 4, 2, 1], "ev")
+        k = ch.weighted([5, 4, 2, 1, 0 if calm else 1], "ev")
         d = (x, y, sid)
         if k == 0 and budget[x] > 0 and (x, y, sid) not in dropped:
             script.append(("send", x, y, sid, kind_of[d]))
@@ -121,10 +123,16 @@ def gen_scenario(ch: Choices, calm: bool) -> Dict[str, Any]:
         elif k == 2 and budget[y] > 0 and not callback[d] and (y, x, sid) not in dropped:
             script.append(("recv", y, x, sid, "nonblock", kind_of[d]))
             budget[y] -= 1
-        elif k == 3 and not calm and (x, y, sid) not in dropped:
+        elif k == 3 and not calm and (x, y, sid) not in dropped and not reconnects:
             script.append(("drop", x, y, sid))
             dropped.add((x, y, sid))     # x's end of the channel is gone: x does nothing more on it
-    return {"names": names, "broadcast": False, "script": script, "chans": chans, "callback": callback}
+        elif k == 4 and not dropped and budget[x] > 0 and not (no_cb_reconnect and (callback[(x, y, sid)] or callback[(y, x, sid)])):
+            # x drops its socket and at once creates a new one with the same names and id (the peer stays)
+            script.append(("reconnect", x, y, sid))
+            budget[x] -= 1
+            reconnects.append((x, y, sid))
+    return {"names": names, "broadcast": False, "script": script, "chans": chans, "callback": callback,
+            "reconnect": bool(reconnects)}
 
 
 def run(ch: Choices, opts: Dict[str, Any]) -> Dict[str, Any]:
@@ -132,7 +140,7 @@ def run(ch: Choices, opts: Dict[str, Any]) -> Dict[str, Any]:
     sh, ts, bc, tbc, SM = m["sh"], m["ts"], m["bc"], m["tbc"], m["SM"]
     trace = Trace()
     calm = ch.flag(1, 10, "calm")
-    sc = gen_scenario(ch, calm)
+    sc = gen_scenario(ch, calm, no_cb_reconnect="reconnect-with-callbacks" in opts.get("avoid", ()))
     names = sc["names"]
     sw = (1, 1) if calm else ch.pick([(1, 2), (1, 6), (1, 20)])
     files = [sh.__file__, ts.__file__, bc.__file__]
@@ -147,6 +155,9 @@ def run(ch: Choices, opts: Dict[str, Any]) -> Dict[str, Any]:
         bump(probes, "three-endpoints")
     if sc["broadcast"]:
         bump(probes, "broadcast")
+    if sc.get("reconnect"):
+        bump(probes, "reconnect")
+        bump(faults, "endpoint-reconnects-while-peer-stays")
     if len({c[2] for c in sc["chans"]}) == 2:
         bump(probes, "two-socket-ids")
     # a stalled thread: not schedulable for a stretch of pre-emption points
@@ -179,10 +190,19 @@ def run(ch: Choices, opts: Dict[str, Any]) -> Dict[str, Any]:
 
     created: List[Any] = []
 
+    late: List[tuple] = []
+
     class TSock(ts.ThreadSocket):
         def __init__(self, *a, **kw):
             created.append(weakref.ref(self))
+            self._sim_owner = threading.current_thread().name
             super().__init__(*a, **kw)
+
+        def __del__(self):
+            # observation only: did the finaliser run on a foreign thread (kept alive by a peer's frame)?
+            if threading.current_thread().name != getattr(self, "_sim_owner", None):
+                late.append((getattr(self, "_app_name", "?"), threading.current_thread().name, sched.points))
+            super().__del__()
 
     class TBcast(tbc.ThreadBroadcastChannel):
         _socket_class = TSock
@@ -293,6 +313,20 @@ def run(ch: Choices, opts: Dict[str, Any]) -> Dict[str, Any]:
                         fn = None
                         finish(e, exc=type(x2).__name__)
                     x2 = None
+                elif k == "reconnect":
+                    usecb = sc["callback"].get((peer, me, sid), False)
+                    e = record(me, ("drop", peer, sid))
+                    socks.pop((peer, sid))
+                    s = None
+                    finish(e, "ok")
+                    e = record(me, ("connect", peer, sid, usecb))
+                    try:
+                        cls = RecSocket if usecb else TSock
+                        socks[(peer, sid)] = cls(me, peer, socket_id=sid, timeout=120.0, use_callbacks=usecb)
+                        finish(e, "ok")
+                    except Exception as x2:  # noqa: BLE001
+                        finish(e, exc=type(x2).__name__)
+                    x2 = None
                 elif k == "drop":
                     e = record(me, ("drop", peer, sid))
                     socks.pop((peer, sid))   # last reference: __del__ -> disconnect runs here, traced
@@ -300,6 +334,11 @@ def run(ch: Choices, opts: Dict[str, Any]) -> Dict[str, Any]:
                     finish(e, "ok")
             s = None
             fn = None
+            if sc.get("reconnect"):
+                # with re-connections in the script nobody leaves before everybody is done
+                done_ctr[0] += 1
+                while done_ctr[0] < len(names):
+                    sched.sleep(0.05)
             for key in list(socks):
                 e = record(me, ("drop", key[0], key[1]))
                 socks.pop(key)
@@ -335,131 +374,161 @@ def run(ch: Choices, opts: Dict[str, Any]) -> Dict[str, Any]:
             bump(faults, "lock-handover-under-contention", v)
     bump(faults, "preemptions", sched.switches)
     detail = {"history": [{k2: (list(v) if isinstance(v, tuple) else v) for k2, v in e.items()} for e in hist][:80], **sample}
-    if isinstance(err, Deadlock):
-        raise Violation("liveness", "liveness|deadlock", {"threads": str(err), **detail})
-    if isinstance(err, StepCapHit):
-        raise Violation("liveness", "liveness|no-progress-within-step-cap", detail)
-    for t in sched.threads:
-        if t.error is not None and not isinstance(t.error, SystemExit):
-            raise Violation("harness-thread", f"thread-died|{type(t.error).__name__}", {"thread": t.name, "error": repr(t.error)[:300], **detail})
+    def _judge() -> Dict[str, Any]:
+        if isinstance(err, Deadlock):
+            raise Violation("liveness", "liveness|deadlock", {"threads": str(err), **detail})
+        if isinstance(err, StepCapHit):
+            raise Violation("liveness", "liveness|no-progress-within-step-cap", detail)
+        for t in sched.threads:
+            if t.error is not None and not isinstance(t.error, SystemExit):
+                raise Violation("harness-thread", f"thread-died|{type(t.error).__name__}", {"thread": t.name, "error": repr(t.error)[:300], **detail})
 
-    # ---------------- oracle over the history ----------------------------------------
-    nontrivial = False
-    for e in hist:
-        if e["op"][0] in ("connect", "bconnect") and e["exc"] is not None:
-            raise Violation("rendezvous", f"rendezvous|{e['exc']}", {"op": e, **detail})
-    if sc["broadcast"]:
-        sends = [e for e in hist if e["op"][0] == "bsend" and e["exc"] is None]
-        for x in names:
-            got = [e["out"] for e in hist if e["thread"] == x and e["op"][0] == "brecv" and e["exc"] is None]
-            for s_name in names:
-                if s_name == x:
-                    continue
-                sent = [e["op"][1] for e in sends if e["thread"] == s_name]
-                recvd = [g[1] for g in got if g[0] == s_name]
-                if recvd != sent[:len(recvd)]:
-                    raise Violation("order", "order|broadcast|not-a-prefix-of-sent", {"sender": s_name, "receiver": x,
-                                                                                    "sent": sent, "received": recvd, **detail})
-                left = leftover.get((x, s_name, 0), [])
-                if recvd + left != sent:
-                    raise Violation("once", "once|broadcast|received+queued-differs-from-sent",
-                                    {"sender": s_name, "receiver": x, "sent": sent, "received": recvd, "queued": left, **detail})
-            for e in hist:
-                if e["thread"] == x and e["op"][0] == "brecv" and e["exc"] == "TimeoutError":
-                    raise Violation("liveness", "liveness|broadcast-recv-timeout", {"op": e, **detail})
-        if len(sends) >= 2:
-            nontrivial = True
-    else:
-        for (a, b, sid) in sc["chans"]:
-            for (x, y) in ((a, b), (b, a)):
-                sends = [e for e in hist if e["thread"] == x and e["op"][0] == "send" and e["op"][1] == y and e["op"][2] == sid]
-                ok = [e for e in sends if e["exc"] is None]
-                sent = [e["op"][4] for e in ok]
-                ydrop = [e for e in hist if e["thread"] == y and e["op"][0] == "drop" and e["op"][1] == x and e["op"][2] == sid]
-                ydrop_inv = ydrop[0]["invoke"] if ydrop else None
-                ydrop_ret = ydrop[0]["ret"] if ydrop else None
-                for e in sends:
-                    if e["exc"] == "ConnectionError":
-                        bump(probes, "connection-error-after-disconnect")
-                        if ydrop_inv is None or ydrop_inv > e["ret"]:
-                            raise Violation("send", "send|spurious-ConnectionError", {"op": e, **detail})
-                    elif e["exc"] is not None:
-                        raise Violation("send", f"send|unexpected-{e['exc']}", {"op": e, **detail})
-                    elif ydrop_ret is not None and ydrop_ret < e["invoke"]:
-                        raise Violation("send", "send|succeeded-after-peer-disconnected", {"op": e, "peer_drop": ydrop[0], **detail})
-                    if ydrop_inv is not None and not (ydrop_ret < e["invoke"] or e["ret"] < ydrop_inv):
-                        bump(probes, "send-races-disconnect")
-                        nontrivial = True
-                usecb = sc["callback"].get((x, y, sid), False)
-                recvs = [e for e in hist if e["thread"] == y and e["op"][0] == "recv" and e["op"][1] == x and e["op"][2] == sid]
-                if usecb:
-                    recvd = [mm for (_, mm) in cb_log.get((x, y, sid), [])]
-                    recvd = [_payload(v) for v in recvd]
-                    if recvd:
-                        bump(probes, "callback-delivery")
-                else:
-                    recvd = [e["out"] for e in recvs if e["exc"] is None]
-                if len(set(recvd)) != len(recvd):
-                    raise Violation("once", "once|message-delivered-twice", {"channel": [x, y, sid], "received": recvd, **detail})
-                if recvd != sent[:len(recvd)]:
-                    cls = "unknown-payload" if any(r not in sent for r in recvd) else "out-of-order-or-gap"
-                    raise Violation("order", f"order|{cls}|{'callback' if usecb else 'recv'}",
-                                    {"channel": [x, y, sid], "sent": sent, "received": recvd, **detail})
-                left = [_payload(v) for v in leftover.get((y, x, sid), [])]
-                if usecb:
-                    # a callback receiver that is being destroyed cannot take a message any more: only sends that
-                    # completed before its disconnect began are owed a delivery
-                    owed = [e["op"][4] for e in ok if ydrop_inv is None or e["ret"] < ydrop_inv]
-                    if any(pl in owed for pl in left):
-                        raise Violation("once", "once|callback-endpoint-message-left-in-queue",
-                                        {"channel": [x, y, sid], "sent": sent, "received": recvd, "queued": left, **detail})
-                    if recvd[:len(owed)] != owed:
-                        raise Violation("once", "once|callback-endpoint-message-lost",
-                                        {"channel": [x, y, sid], "sent": sent, "owed": owed, "received": recvd, **detail})
-                elif recvd + left != sent:
-                    raise Violation("once", "once|received+queued-differs-from-sent",
-                                    {"channel": [x, y, sid], "sent": sent, "received": recvd, "queued": left, **detail})
-                # non-blocking / timed receives against what was certainly there
-                for e in recvs:
-                    n_sent_before = sum(1 for s2 in ok if s2["ret"] < e["invoke"])
-                    n_recv_before = sum(1 for r2 in recvs if r2 is not e and r2["exc"] is None and r2["ret"] <= e["invoke"])
-                    certainly_there = n_sent_before - n_recv_before > 0
-                    if e["exc"] == "RuntimeError":
-                        bump(probes, "nonblocking-recv-empty")
-                        if e["op"][3] != "nonblock":
-                            raise Violation("recv", "recv|blocking-recv-raised-RuntimeError", {"op": e, **detail})
-                        if certainly_there:
-                            raise Violation("recv", "recv|nonblocking-reported-empty-on-nonempty-channel", {"op": e, **detail})
-                    elif e["exc"] == "TimeoutError":
-                        bump(probes, "recv-timeout")
-                        if certainly_there:
-                            raise Violation("recv", "recv|timeout-although-message-was-queued", {"op": e, **detail})
-                    elif e["exc"] is not None:
-                        raise Violation("recv", f"recv|unexpected-{e['exc']}", {"op": e, **detail})
-                    elif e["op"][3] == "nonblock":
-                        bump(probes, "nonblocking-recv-got")
-                    # overlap of a non-blocking receive with a send = a race actually explored
-                    if e["op"][3] == "nonblock" and any(not (s2["ret"] < e["invoke"] or e["ret"] < s2["invoke"]) for s2 in ok):
-                        nontrivial = True
-                # two messages in flight at some moment
-                for i, s2 in enumerate(ok):
-                    n_r = sum(1 for r2 in recvs if r2["exc"] is None and r2["ret"] < s2["ret"])
+        # ---------------- oracle over the history ----------------------------------------
+        nontrivial = False
+        for e in hist:
+            if e["op"][0] in ("connect", "bconnect") and e["exc"] is not None:
+                raise Violation("rendezvous", f"rendezvous|{e['exc']}", {"op": e, **detail})
+        if sc["broadcast"]:
+            sends = [e for e in hist if e["op"][0] == "bsend" and e["exc"] is None]
+            for x in names:
+                got = [e["out"] for e in hist if e["thread"] == x and e["op"][0] == "brecv" and e["exc"] is None]
+                for s_name in names:
+                    if s_name == x:
+                        continue
+                    sent = [e["op"][1] for e in sends if e["thread"] == s_name]
+                    recvd = [g[1] for g in got if g[0] == s_name]
+                    if recvd != sent[:len(recvd)]:
+                        raise Violation("order", "order|broadcast|not-a-prefix-of-sent", {"sender": s_name, "receiver": x,
+                                                                                        "sent": sent, "received": recvd, **detail})
+                    left = leftover.get((x, s_name, 0), [])
+                    if recvd + left != sent:
+                        raise Violation("once", "once|broadcast|received+queued-differs-from-sent",
+                                        {"sender": s_name, "receiver": x, "sent": sent, "received": recvd, "queued": left, **detail})
+                for e in hist:
+                    if e["thread"] == x and e["op"][0] == "brecv" and e["exc"] == "TimeoutError":
+                        raise Violation("liveness", "liveness|broadcast-recv-timeout", {"op": e, **detail})
+            if len(sends) >= 2:
+                nontrivial = True
+        else:
+            for (a, b, sid) in sc["chans"]:
+                for (x, y) in ((a, b), (b, a)):
+                    sends = [e for e in hist if e["thread"] == x and e["op"][0] == "send" and e["op"][1] == y and e["op"][2] == sid]
+                    ok = [e for e in sends if e["exc"] is None]
+                    sent = [e["op"][4] for e in ok]
+                    # y's life on this channel: alternating connect / drop entries
+                    ylife = [e for e in hist if e["thread"] == y and e["op"][0] in ("connect", "drop")
+                             and e["op"][1] == x and e["op"][2] == sid]
+                    INF = 10 ** 12
+                    gone_maybe: List[Tuple[int, int]] = []   # y possibly not there: [drop.invoke, next connect.ret]
+                    gone_sure: List[Tuple[int, int]] = []    # y certainly not there: [drop.ret, next connect.invoke]
+                    leaving: List[Tuple[int, int]] = []      # y going or gone: [drop.invoke, next connect.invoke]
+                    for i2, ev in enumerate(ylife):
+                        if ev["op"][0] != "drop":
+                            continue
+                        nxt = next((c for c in ylife[i2 + 1:] if c["op"][0] == "connect"), None)
+                        gone_maybe.append((ev["invoke"], nxt["ret"] if nxt else INF))
+                        gone_sure.append((ev["ret"], nxt["invoke"] if nxt else INF))
+                        leaving.append((ev["invoke"], nxt["invoke"] if nxt else INF))
+
+                    def meets(e2, spans):
+                        return any(not (e2["ret"] < lo or hi < e2["invoke"]) for lo, hi in spans)
+
+                    def inside(e2, spans):
+                        return any(lo < e2["invoke"] and e2["ret"] < hi for lo, hi in spans)
+
+                    for e in sends:
+                        if e["exc"] == "ConnectionError":
+                            bump(probes, "connection-error-after-disconnect")
+                            if not meets(e, gone_maybe):
+                                raise Violation("send", "send|spurious-ConnectionError", {"op": e, **detail})
+                        elif e["exc"] is not None:
+                            raise Violation("send", f"send|unexpected-{e['exc']}", {"op": e, **detail})
+                        elif inside(e, gone_sure):
+                            raise Violation("send", "send|succeeded-after-peer-disconnected", {"op": e, "peer_life": ylife, **detail})
+                        if meets(e, gone_maybe) and not inside(e, gone_sure):
+                            bump(probes, "send-races-disconnect")
+                            nontrivial = True
+                    usecb = sc["callback"].get((x, y, sid), False)
+                    recvs = [e for e in hist if e["thread"] == y and e["op"][0] == "recv" and e["op"][1] == x and e["op"][2] == sid]
                     if usecb:
-                        n_r = sum(1 for (pt, _) in cb_log.get((x, y, sid), []) if pt < s2["invoke"])
-                    if (i + 1) - n_r >= 2 and not usecb:
-                        bump(probes, "two-in-flight")
-                        nontrivial = True
-                for e in ok:
-                    if e["op"][3] == "structured":
-                        bump(probes, "structured")
-                    if e["op"][3] == "silent":
-                        bump(probes, "silent")
-    h = hashlib.blake2b(repr(sc["script"]).encode(), digest_size=6).hexdigest()
-    fpr = hashlib.blake2b("".join(sched.fp).encode(), digest_size=8).hexdigest()
-    return {"digest": trace.digest(), "fingerprint": fpr + h, "nontrivial": bool(nontrivial), "events": sched.points,
-            "sim_ns": sched.now_ns, "faults": faults, "probes": probes, "calm": calm,
-            "sample": {"endpoints": names, "broadcast": sc["broadcast"], "script": sc["script"][:12], "switch_prob": list(sw),
-                       "history_head": [[e["thread"], list(e["op"]), e["invoke"], e["ret"], e["out"], e["exc"]] for e in hist[:14]]}}
+                        recvd = [mm for (_, mm) in cb_log.get((x, y, sid), [])]
+                        recvd = [_payload(v) for v in recvd]
+                        if recvd:
+                            bump(probes, "callback-delivery")
+                    else:
+                        recvd = [e["out"] for e in recvs if e["exc"] is None]
+                    if len(set(recvd)) != len(recvd):
+                        raise Violation("once", "once|message-delivered-twice", {"channel": [x, y, sid], "received": recvd, **detail})
+                    it = iter(sent)
+                    is_subseq = all(any(r == z for z in it) for r in recvd)
+                    if (recvd != sent[:len(recvd)]) if not usecb else (not is_subseq):
+                        cls = "unknown-payload" if any(r not in sent for r in recvd) else "out-of-order-or-gap"
+                        raise Violation("order", f"order|{cls}|{'callback' if usecb else 'recv'}",
+                                        {"channel": [x, y, sid], "sent": sent, "received": recvd, **detail})
+                    left = [_payload(v) for v in leftover.get((y, x, sid), [])]
+                    if usecb:
+                        # a callback receiver that is being destroyed cannot take a message any more: only sends that
+                        # completed before its disconnect began are owed a delivery
+                        owed = [e["op"][4] for e in ok if not meets(e, leaving)]
+                        if any(pl in owed for pl in left):
+                            raise Violation("once", "once|callback-endpoint-message-left-in-queue",
+                                            {"channel": [x, y, sid], "sent": sent, "received": recvd, "queued": left, **detail})
+                        if any(pl not in recvd for pl in owed):
+                            raise Violation("once", "once|callback-endpoint-message-lost",
+                                            {"channel": [x, y, sid], "sent": sent, "owed": owed, "received": recvd, **detail})
+                    elif recvd + left != sent:
+                        raise Violation("once", "once|received+queued-differs-from-sent",
+                                        {"channel": [x, y, sid], "sent": sent, "received": recvd, "queued": left, **detail})
+                    # non-blocking / timed receives against what was certainly there
+                    for e in recvs:
+                        n_sent_before = sum(1 for s2 in ok if s2["ret"] < e["invoke"])
+                        n_recv_before = sum(1 for r2 in recvs if r2 is not e and r2["exc"] is None and r2["ret"] <= e["invoke"])
+                        certainly_there = n_sent_before - n_recv_before > 0
+                        if e["exc"] == "RuntimeError":
+                            bump(probes, "nonblocking-recv-empty")
+                            if e["op"][3] != "nonblock":
+                                raise Violation("recv", "recv|blocking-recv-raised-RuntimeError", {"op": e, **detail})
+                            if certainly_there:
+                                raise Violation("recv", "recv|nonblocking-reported-empty-on-nonempty-channel", {"op": e, **detail})
+                        elif e["exc"] == "TimeoutError":
+                            bump(probes, "recv-timeout")
+                            if certainly_there:
+                                raise Violation("recv", "recv|timeout-although-message-was-queued", {"op": e, **detail})
+                        elif e["exc"] is not None:
+                            raise Violation("recv", f"recv|unexpected-{e['exc']}", {"op": e, **detail})
+                        elif e["op"][3] == "nonblock":
+                            bump(probes, "nonblocking-recv-got")
+                        # overlap of a non-blocking receive with a send = a race actually explored
+                        if e["op"][3] == "nonblock" and any(not (s2["ret"] < e["invoke"] or e["ret"] < s2["invoke"]) for s2 in ok):
+                            nontrivial = True
+                    # two messages in flight at some moment
+                    for i, s2 in enumerate(ok):
+                        n_r = sum(1 for r2 in recvs if r2["exc"] is None and r2["ret"] < s2["ret"])
+                        if usecb:
+                            n_r = sum(1 for (pt, _) in cb_log.get((x, y, sid), []) if pt < s2["invoke"])
+                        if (i + 1) - n_r >= 2 and not usecb:
+                            bump(probes, "two-in-flight")
+                            nontrivial = True
+                    for e in ok:
+                        if e["op"][3] == "structured":
+                            bump(probes, "structured")
+                        if e["op"][3] == "silent":
+                            bump(probes, "silent")
+        h = hashlib.blake2b(repr(sc["script"]).encode(), digest_size=6).hexdigest()
+        fpr = hashlib.blake2b("".join(sched.fp).encode(), digest_size=8).hexdigest()
+        return {"digest": trace.digest(), "fingerprint": fpr + h, "nontrivial": bool(nontrivial), "events": sched.points,
+                "sim_ns": sched.now_ns, "faults": faults, "probes": probes, "calm": calm,
+                "sample": {"endpoints": names, "broadcast": sc["broadcast"], "script": sc["script"][:12], "switch_prob": list(sw),
+                           "history_head": [[e["thread"], list(e["op"]), e["invoke"], e["ret"], e["out"], e["exc"]] for e in hist[:14]]}}
+
+    if late and sc.get("reconnect"):
+        detail["finalisers_on_foreign_threads"] = late[:5]
+        bump(probes, "late-finaliser")
+        try:
+            return _judge()
+        except Violation as v:
+            raise Violation(v.oracle, v.signature + "|late-finaliser-of-replaced-socket", v.detail)
+    return _judge()
 
 
 class _DummyHub:
